@@ -9,6 +9,7 @@ EXTENDS TokenizerOps, FiniteSets, TLC, Json
 CONSTANTS Alphabet,     \* set of code points
           MaxLen,       \* strings of length 0..MaxLen
           StepLen,      \* strings up to this length are also run step by step
+          LexLen,       \* strings up to this length: the law on the whole lexer under every option set of OptSets
           OptSets       \* tokenizer option sets (all with escapes enabled) the law is checked under
 
 \* the characters that matter to escaping: \ " ' LF CR TAB \v \b \f \a ? / n a
@@ -78,7 +79,7 @@ Spec == Init /\ [][Next]_vars
 \* on the string reader alone: un-escaping gives s back, closed by the appended quote only
 Inverse == p = 0 => InverseLaw(s, ml)
 \* on the whole lexer, under several option sets: exactly one STRING token, then EOF
-LexInverse == p = 0 => \A o \in OptSets :
+LexInverse == (p = 0 /\ Len(s) <= LexLen) => \A o \in OptSets :
     LET r == Lex(Text, Cfg(o)) IN
         /\ r.err = NoErrL
         /\ r.toks = Expect(LinesOf(s, ml)) \o <<[t |-> "EOF", v |-> <<>>, l |-> LinesOf(s, ml)]>>
